@@ -9,7 +9,7 @@ S=/var/tmp/confirm-$$; rm -rf "$S"; cp -a /repo "$S"; cd "$S" && git checkout -q
 git apply "$SD/patch.diff" || { echo "CONFIRM: patch does not apply"; rm -rf "$S"; exit 2; }
 go build ./... 2>&1 | grep -v "warning\|duk_\|^#\|\^" | head -5
 echo "--- existing tests with the change:"
-go test -vet=off -count=1 "$@" 2>&1 | grep -v "no test files" | tail -n 8
+go test -vet=off -count=1 "$@" 2>&1 | grep -v "no test files" | grep -a "^ok\|^FAIL\|^--- FAIL\|^panic" | tail -n 12
 demo=$(ls "$SD"/demo*_test.go 2>/dev/null | head -1)
 cp "$demo" "$DDIR/zz_seed_demo_test.go"
 echo "--- demo WITH the change (must fail):"
